@@ -884,6 +884,8 @@ class Session:
                 mutation = None
             else:
                 expect = m.get("expect")
+                if m.get("sub"):
+                    mutation = mutation.rstrip("2") + "/" + m["sub"]
                 req_method = m.get("method", method)
                 req_target = m.get("target", target)
                 conn_addr = m.get("conn")
@@ -1136,6 +1138,82 @@ def m_username(s, st, sem, call, x):
     return {"expect": {"WRONG_USERNAME"}}
 
 
+def _to_ext(rng, sem, name):
+    """send `name` (any bytes, NUL included: it travels as %00) in RFC 5987 extended notation, whatever the notation was"""
+    sem.pop(b"username", None)
+    sem.pop(b"userhash", None)
+    sem[b"username*"] = rng.choice([b"UTF-8", b"utf-8"]) + b"'" + rng.choice([b"", b"en"]) + b"'" \
+        + enc_component(rng, name, b"'\"\\,;*", extra=0.1)
+
+
+def m_cmplen_user(s, st, sem, call, x):
+    """mutation class "C-string vs length-delimited comparison", the parameters looked at before the nonce table:
+    the value the client sends is the configured one *extended* behind an embedded NUL, *truncated* at a NUL, a NUL
+    alone, or a proper prefix / extension without NUL.  A NUL can travel only percent-encoded, i.e. in `username*`
+    (every notation is switched to it) — a quoted-pair `\\` NUL cannot occur in a field value.  An implementation that
+    compares with strcmp / strncmp (name, decoded, strlen (name)) instead of (length, bytes) accepts these."""
+    rng = s.rng
+    user, realm = st["user"], st["realm"]
+    junk = rng.choice([b"root", b"x", b"\0", b"\0admin", rnd_bytes(rng, SAFE, 1, 6)])
+    k = rng.choice(["ext-nul-junk", "ext-nul-junk", "ext-nul-junk", "ext-nul-end", "ext-last-nul", "ext-nul-alone", "ext-nul-first",
+                    "ext-prefix", "ext-longer", "plain-prefix", "realm-prefix"])
+    if k == "plain-prefix":
+        if st["notation"] != "plain" or len(user) < 2:
+            k = "ext-nul-junk"
+        else:
+            sem[b"username"] = user[:-1]
+            return {"expect": {"WRONG_USERNAME"}, "sub": k}
+    if k == "realm-prefix":
+        if len(realm) < 2:
+            k = "ext-nul-end"
+        else:
+            sem[b"realm"] = realm[:-1]
+            sem[b"response"] = _reresp(st, sem, x, realm=sem[b"realm"])
+            return {"expect": {"WRONG_REALM"}, "sub": k}
+    name = {"ext-nul-junk": user + b"\0" + junk, "ext-nul-end": user + b"\0", "ext-last-nul": user[:-1] + b"\0",
+            "ext-nul-alone": b"\0", "ext-nul-first": b"\0" + user, "ext-prefix": user[:-1], "ext-longer": user + junk}[k]
+    if name == user:
+        name = user + b"\0"
+    _to_ext(rng, sem, name)
+    return {"expect": {"WRONG_USERNAME"}, "sub": k}
+
+
+def m_cmplen_uri(s, st, sem, call, x):
+    """the same class for what is compared after the nonce table: the `uri` parameter (percent-decoded, then compared
+    with the request's path and arguments) extended behind / truncated at a %00 — in the credential or in the request
+    target — with an honest response for the uri as sent; the cnonce (hashed with its length) truncated"""
+    rng = s.rng
+    path, args = st["path"], list(st["args"])
+    junk = rng.choice([b"root", b"x", b"/..", rnd_bytes(rng, SAFE, 1, 6)])
+    k = rng.choice(["uri-nul-path", "uri-nul-path", "uri-nul-end", "uri-nul-arg", "uri-nul-key", "target-nul-path", "target-nul-arg",
+                    "cnonce-prefix"])
+    if k == "cnonce-prefix":
+        if not st["qop"] or len(x["cnonce"]) < 2:
+            k = "uri-nul-path"
+        else:
+            sem[b"cnonce"] = x["cnonce"][:-1]
+            return {"expect": {"RESPONSE_WRONG"}, "sub": k}
+    if k in ("uri-nul-arg", "uri-nul-key", "target-nul-arg") and not args:
+        k = "uri-nul-path" if k.startswith("uri") else "target-nul-path"
+    p2, a2 = path, args
+    if k.endswith("nul-path"):
+        p2 = path + b"\0" + junk
+    elif k == "uri-nul-end":
+        p2 = path + b"\0"
+    else:
+        i = rng.randrange(len(args))
+        kk, vv = args[i]
+        a2 = list(args)
+        a2[i] = (kk + b"\0" + junk, vv) if k == "uri-nul-key" else (kk, (vv or b"") + b"\0" + junk)
+    other = spell_target(rng, p2, a2)
+    if k.startswith("target"):
+        # the request is for the longer resource, the credential was made for the shorter one
+        return {"expect": {"WRONG_URI"}, "target": other, "sub": k}
+    sem[b"uri"] = other
+    sem[b"response"] = _reresp(st, sem, x)
+    return {"expect": {"WRONG_URI"}, "sub": k}
+
+
 def m_algorithm(s, st, sem, call, x):
     k = s.rng.choice(["sess", "unknown", "not-allowed", "other", "empty"])
     a = st["algo"]
@@ -1269,8 +1347,10 @@ def m_size(s, st, sem, call, x):
 MUTATIONS = {"response-flip": m_response_flip, "response-len": m_response_len, "nonce": m_nonce_flip, "nc-bad": m_nc_bad,
              "nc-other": m_nc_other, "nc-above-max": m_nc_above_max, "cnonce": m_cnonce, "uri": m_uri, "uri2": m_uri,
              "realm": m_realm, "username": m_username, "username2": m_username, "algorithm": m_algorithm, "qop": m_qop,
-             "password": m_password, "method": m_method, "other-client": m_other_client, "other-resource": m_other_resource, "size": m_size, "size2": m_size, "other-realm": m_other_realm}
-PRE_TABLE_MUTS = {"nonce", "nc-bad", "nc-above-max", "realm", "username", "username2", "algorithm", "qop", "size", "size2"}
+             "password": m_password, "method": m_method, "other-client": m_other_client, "other-resource": m_other_resource, "size": m_size, "size2": m_size, "other-realm": m_other_realm,
+             "cmplen-user": m_cmplen_user, "cmplen-user2": m_cmplen_user, "cmplen-uri": m_cmplen_uri, "cmplen-uri2": m_cmplen_uri}
+PRE_TABLE_MUTS = {"nonce", "nc-bad", "nc-above-max", "realm", "username", "username2", "algorithm", "qop", "size", "size2",
+                  "cmplen-user", "cmplen-user2"}
 
 
 REASON_CLASSES = {"size limit2": set(), "algorithm": {"WRONG_ALGO"}, "qop": {"WRONG_QOP"}, "username-presence": {"WRONG_USERNAME"},
@@ -1494,7 +1574,9 @@ class Spec:
                          "Mhd.C12.hex_roundtrip", "Mhd.C12.alloc_success_is_model", "Mhd.C12.alloc_failure_cases",
                          "Mhd.C12.alloc_failure_class", "Mhd.C12.alloc_failure_never_ok_unless", "Mhd.C12.alloc_failure_table",
                          "Mhd.C12.alloc_failure_ok_iff", "Mhd.C12.alloc_failure_needs_heap_error",
-                         "Mhd.C12.alloc_irrelevant_when_small", "Mhd.C12.no_buffer_overflow_alloc"]
+                         "Mhd.C12.alloc_irrelevant_when_small", "Mhd.C12.no_buffer_overflow_alloc", "Mhd.C12.extended_username_exact_stage",
+                         "Mhd.C12.extended_username_exact", "Mhd.C12.extended_username_compared_with_length",
+                         "Mhd.C12.extended_username_with_nul_rejected"]
     trusted_base = ["Lean 4 kernel", "axioms: propext, Classical.choice, Quot.sound at most (audited per theorem)",
                     "hand-written model lean/Mhd/Model/Dauth.lean, DauthAlloc.lean, DauthArgs.lean (+ C13 Nonce, C14 Auth*, C16 hash specs) tied to "
                     "digestauth.c by this run's correspondence",
